@@ -68,6 +68,8 @@ def plain_alternation(defn):
         return False
     s = next(o for o in obs if o["kind"] == "STANDARD")
     d = next(o for o in obs if o["kind"] == "DAYLIGHT")
+    if (s.get("rrule") or {}).get("interval") != (d.get("rrule") or {}).get("interval"):
+        return False        # an observance that recurs while it is already in effect: its TZOFFSETFROM does not match the chain
     return s["from"] == d["to"] and d["from"] == s["to"] and d["to"] > s["to"] and bool(s.get("rrule")) and bool(d.get("rrule"))
 
 
@@ -219,6 +221,8 @@ def info(case):
         classes.append("has-until")
     if any(o.get("rrule") and o["rrule"].get("count") for o in defn["obs"]):
         classes.append("has-count")
+    if any(o.get("rrule") and o["rrule"].get("interval") for o in defn["obs"]):
+        classes.append("has-interval")
     if any(not o.get("name") for o in defn["obs"]):
         classes.append("no-tzname")
     if case.get("unchained"):
@@ -290,6 +294,11 @@ def definitions(draw):
         elif end == "count":
             dst["rrule"]["count"] = draw(st.integers(1, 12))
             std["rrule"]["count"] = draw(st.integers(1, 12))
+        iv = draw(st.sampled_from([None, None, None, None, 2, 3]))
+        if iv:      # the whole alternation only every iv-th year (both rules, so the definition stays chained)
+            dst["rrule"]["interval"] = std["rrule"]["interval"] = iv
+            if draw(st.integers(0, 3)) == 0:
+                del std["rrule"]["interval"]     # daylight time in some years only: STANDARD recurs although it is in effect already
         obs = [dst, std]
         if style == "mixed":   # a later standard-offset shift
             ys = draw(st.integers(2031, 2036))
